@@ -59,7 +59,7 @@ fn de_code(de: De, input: &[u8]) -> i64 {
 }
 
 /// len-ser <out.json>: for every style every representable length -> the emitted prefix.
-/// One JSON object: {"rows":[[style, n, [bytes] | "panic"], ...]}
+/// One JSON object: {"rows":[[style, n, [bytes] | [-4] for a panic], ...]}
 pub fn len_ser(args: &[String]) -> anyhow::Result<()> {
     let mut w = out_file(&args[0])?;
     let mut first = true;
@@ -70,7 +70,7 @@ pub fn len_ser(args: &[String]) -> anyhow::Result<()> {
         for n in 0..=max {
             let cell = match guarded(|| ser(n)) {
                 Ok(b) => bytes_json(&b),
-                Err(_) => "\"panic\"".to_string(),
+                Err(_) => "[-4]".to_string(),   // a panic: a cell no prefix can equal
             };
             if !first {
                 write!(w, ",")?;
